@@ -542,3 +542,20 @@ Definition yamux_cfg_ok (sites : list (string * string * string * string)) (wins
      (if String.eqb f "KeepAliveInterval" then br_suffix ".Transport.TCPMuxKeepaliveInterval) * time.Second" v else true) end) sites &&
   (length wins =? 2)%nat && forallb (fun x => match x with (_, _, w) => w =? 6291456 end) wins &&
   (default_ms =? 300000).
+
+(* ---------- 8. stcp visitor: the handshake deadline must be gone when the stream is joined ---------- *)
+
+(* client/visitor/stcp.go handleConn arms a 10 s read deadline for the NewVisitorConnResp and joins the same
+   connection afterwards; a deadline still armed at the join cuts every stream that is idle when it is 10 s old.
+   Events inside a defer statement ("defer:...") run after the join and do not count. *)
+Fixpoint dl_at (marker : string) (st : bool * bool) (evs : list string) : option (bool * bool) :=
+  match evs with
+  | [] => None
+  | e :: r => if String.eqb e marker then Some st else dl_at marker (dl_step st e) r
+  end.
+
+Definition visitor_events_ok (evs : list string) : bool :=
+  match dl_at "join" (false, false) evs with Some (false, false) => true | _ => false end &&
+  negb (existsb (fun e => br_prefix "?" e) evs) &&
+  (length (filter (fun e => String.eqb e "join") evs) =? 1)%nat &&
+  existsb (fun e => String.eqb e "readmsg") evs.
